@@ -376,6 +376,23 @@ def _compress_tiles(
     data = xx.data
     assert is_dask_collection(data)
 
+    # Image in the header is padded to a multiple of 2**nlevels. For very elongated
+    # images (e.g. single row with several overview levels) this adds whole tiles
+    # for which there are no source blocks, make them.
+    _ydim = 1 if (meta.axis == "SYX" and data.ndim == 3) else 0
+    _have = data.shape[_ydim : _ydim + 2]
+    _ntiles = tuple((n + t - 1) // t for n, t in zip(_have, meta.tile.yx))
+    if _ntiles != meta.chunked.yx:
+        import dask.array as da
+
+        _fill: Union[float, int] = 0
+        if meta.nodata is not None:
+            _fill = float(meta.nodata) if isinstance(meta.nodata, str) else meta.nodata
+        _pad = [(0, 0)] * data.ndim
+        for i, (want, n) in enumerate(zip(meta.shape.yx, _have)):
+            _pad[_ydim + i] = (0, max(0, want - n))
+        data = da.pad(data, _pad, mode="constant", constant_values=_fill)
+
     if meta.axis == "SYX":
         src_ydim = 1
         if data.ndim == 2:
